@@ -8,7 +8,7 @@ import time
 from vlib import (Inconclusive, NCPU, log, run, run_tlc, stage_spec, validate_traces, write_mc)
 
 H_INV = ["H_WellFormed"]
-M_INV = ["M_Values", "M_Heads", "M_Nidx", "M_ClockId"]
+M_INV = ["M_Values", "M_Heads", "M_Nidx", "M_ClockId", "M_Iterator"]
 M_PROP = ["M_Append", "M_Join", "M_SetIdentity"]
 
 # Layer-P operators of each property: (model invariants, model action properties,
@@ -24,13 +24,14 @@ OPS = {
     "C05": ([], ["C05_EntriesMonotone", "C05_ValuesSubsequence", "C05_OthersUntouched"],
             ["C05_OneContentPerHash"],
             ["C05_EntriesMonotone", "C05_ValuesSubsequence", "C05_DigestsStable", "C05_OthersUntouched"]),
+    "C15": (["C15_AlgoMeetsSpec"], [], ["C15_IterMeetsSpec"], []),
     "C16": ([], ["C16_Bounded"], [], ["C16_NoPanic", "C16_LastN"]),
 }
 
 
 def base_consts(**kw):
     c = dict(NR=3, Writer0=[1, 2, 1], Lid=["X", "X", "X"], Fn="LWW", MaxE=4, MaxOps=6, PCs={1},
-             Sizes=set(), Writers=set(), Denied=[set(), set(), set()], HashPerm="id")
+             Sizes=set(), Writers=set(), Denied=[set(), set(), set()], HashPerm="id", IterOn=set())
     c.update(kw)
     return c
 
@@ -91,6 +92,15 @@ def classify(report, prop, viols, hcfg, scripts_by_sid=None):
         desc = {"operator": op}
         if rec:
             desc.update({"op": rec.get("op"), "err": bool(rec.get("err")), "panic": rec.get("panic", False)})
+        if rec and rec.get("iter"):
+            it = rec["iter"]
+            desc.update({
+                "upper": "lte%d" % len(it["lte"]) if it["lte"] else ("lt" if it["lt"] else "heads"),
+                "lower": "gte" if it["gte"] else ("gt" if it["gt"] else "none"),
+                "amount": "none" if it["amount"] < 0 else ("zero" if it["amount"] == 0 else
+                                                           ("le_out" if it["amount"] <= len(it["out"]) else "gt_out")),
+                "closed": it["closed"], "iter_err": bool(it["err"]), "iter_panic": it["panic"] or it["hung"],
+            })
         if op.startswith("H_"):
             raise Inconclusive("harness trace not well formed (%s): %s" % (op, json.dumps(rec)[:600]))
         if op.startswith("M_"):
